@@ -49,3 +49,15 @@ package utils
 //@   property C18
 //@   requires native != nil && native.tx != nil
 //@   ensures result == nil <==> witnessed(native, address)
+
+//@ func PutBytes
+//@   property C22
+//@   mode abstract
+//@   requires native != nil
+//@   modifies Store
+//@   ensures Store == upd(old(Store), keyOf(old(bytes(key))), Some(rawItem(old(bytes(value)))))
+
+//@ func CheckRouterStartBlock
+//@   property C21
+//@   mode abstract
+//@   modifies nothing
